@@ -163,7 +163,7 @@ class MultiHierarchy:
 
         # modify these locally in case of errors
         hier = dict(self._hier)
-        loer = dict(self._loer)
+        loer = {id: set(children) for id, children in self._loer.items()}
 
         while subhierarchy:
             eligible = _get_eligible(hier, subhierarchy)
